@@ -439,3 +439,120 @@ func TestC13Replay(t *testing.T) {
 	}
 	t.Fatalf("C13 violated (saved): %s; snapshot replays need the collection's schema - see 'history' in the replay file", rp.Why)
 }
+
+// TestC13Parallel: snapshots are taken while writers commit with real
+// parallelism (every transaction writes a=v, b=-v, c=v on one row, as in C10);
+// prefixes of the file - the state section alone, cuts inside the log tail - are
+// restored: whenever Restore returns nil every row must satisfy the invariant
+// (a state that contains part of a commit does not), and the complete file must.
+func TestC13Parallel(t *testing.T) {
+	rapid.Check(t, func(t *rapid.T) {
+		blocks := rapid.IntRange(1, 2).Draw(t, "blocks")
+		writers := rapid.IntRange(2, 6).Draw(t, "writers")
+		c := column.NewCollection(column.Options{Capacity: 1024, Vacuum: 24 * 3600 * 1e9})
+		defer c.Close()
+		c.CreateColumn("a", column.ForInt())
+		c.CreateColumn("b", column.ForInt())
+		c.CreateColumn("c", column.ForUint64())
+		n := blocks*16384 - 100
+		c.Query(func(txn *column.Txn) error {
+			for i := 0; i < n; i++ {
+				txn.Insert(func(r column.Row) error { r.SetInt("a", 0); r.SetInt("b", 0); r.SetUint64("c", 0); return nil })
+			}
+			return nil
+		})
+		stop := make(chan struct{})
+		done := make(chan struct{}, writers)
+		for w := 0; w < writers; w++ {
+			go func(w int) {
+				defer func() { recover(); done <- struct{}{} }()
+				x := uint32(w*104729 + 7)
+				for v := 1; ; v++ {
+					select {
+					case <-stop:
+						return
+					default:
+					}
+					x = x*1664525 + 1013904223
+					// each writer owns the rows congruent to w, so that merges keep the invariant
+					row := ((x>>8)%uint32(n)/uint32(writers))*uint32(writers) + uint32(w)
+					if row >= uint32(n) {
+						continue
+					}
+					val := v*8 + w
+					c.QueryAt(row, func(r column.Row) error {
+						r.SetInt("a", val)
+						r.SetInt("b", -val)
+						r.SetUint64("c", uint64(val))
+						return nil
+					})
+				}
+			}(w)
+		}
+		check := func(data []byte, what string) (restored bool) {
+			d := column.NewCollection(column.Options{Capacity: 1024, Vacuum: 24 * 3600 * 1e9})
+			defer d.Close()
+			d.CreateColumn("a", column.ForInt())
+			d.CreateColumn("b", column.ForInt())
+			d.CreateColumn("c", column.ForUint64())
+			err, bad := guarded(func() error { return d.Restore(bytes.NewReader(data)) })
+			if bad != "" {
+				t.Fatalf("C13 violated: %s: %s", what, bad)
+			}
+			if err != nil {
+				return false
+			}
+			obs := &c10Obs{}
+			c10ReadABC(d, obs)
+			if obs.Bad != "" {
+				t.Fatalf("C13 violated: %s returned nil but the restored state contains part of a commit: %s (snapshot taken under %d writers, %d blocks)", what, obs.Bad, writers, blocks)
+			}
+			return true
+		}
+		nontrivial := 0
+		for round := 0; round < 3; round++ {
+			var buf bytes.Buffer
+			if err := c.Snapshot(&buf); err != nil {
+				t.Fatalf("C13: Snapshot under writers failed: %v", err)
+			}
+			data := buf.Bytes()
+			_, streams := s2Frames(data)
+			junction := len(data)
+			if len(streams) >= 2 {
+				junction = streams[1]
+			}
+			if !check(data, "Restore of the complete snapshot") {
+				t.Fatalf("C13 violated: Restore of a complete snapshot taken under writers returned an error")
+			}
+			if check(data[:junction], fmt.Sprintf("Restore of the state section alone (first %d of %d bytes)", junction, len(data))) && junction < len(data) {
+				nontrivial++
+			}
+			frames, _ := s2Frames(data)
+			tried := 0
+			for _, f := range frames {
+				if f > junction && tried < 6 {
+					tried++
+					check(data[:f], fmt.Sprintf("Restore of the first %d of %d bytes (inside the log tail, junction %d)", f, len(data), junction))
+				}
+			}
+		}
+		close(stop)
+		for w := 0; w < writers; w++ {
+			<-done
+		}
+		RecordCase("C13", fmt.Sprintf("parallel: blocks=%d writers=%d snapshots=3", blocks, writers), nontrivial > 0, "snapshot:parallel-writers")
+	})
+}
+
+// c10ReadABC checks the a/b/c invariant on every row of a collection.
+func c10ReadABC(c *column.Collection, obs *c10Obs) {
+	c.Query(func(txn *column.Txn) error {
+		ra, rb, rc := txn.Int("a"), txn.Int("b"), txn.Uint64("c")
+		return txn.Range(func(idx uint32) {
+			a, okA := ra.Get()
+			b, okB := rb.Get()
+			cc, okC := rc.Get()
+			c10CheckRow(idx, a, okA, b, okB, cc, okC, obs)
+		})
+	})
+}
